@@ -252,10 +252,13 @@ def _expand(fn, call, is_method, caller_locals, counter, site=None):
     stored = {n.id for st in body for n in ast.walk(st)
               if isinstance(n, ast.Name) and isinstance(n.ctx, (ast.Store,
                                                                 ast.Del))}
-    pre, mapping = [], {}
+    pre, mapping, same_name = [], {}, set()
     for p, arg in bind.items():
         if _simple(arg) and p not in stored:
             mapping[p] = arg
+        elif isinstance(arg, ast.Name) and arg.id == p:
+            same_name.add(p)    # handed on under its own name: the same
+                                # variable before the block was moved
         else:
             nm = p if p not in caller_locals else f'{p}__h{counter[0]}'
             mapping[p] = nm
@@ -276,7 +279,8 @@ def _expand(fn, call, is_method, caller_locals, counter, site=None):
         keep = {t.id for t, r in pairs if isinstance(t, ast.Name) and
                 isinstance(r, ast.Name) and t.id == r.id}
     for nm in stored:
-        if nm not in mapping and nm in caller_locals and nm not in keep:
+        if nm not in mapping and nm in caller_locals and \
+                nm not in keep and nm not in same_name:
             mapping[nm] = f'{nm}__h{counter[0]}'
     counter[0] += 1
     sub = _Subst(mapping)
